@@ -11,7 +11,7 @@ pub struct C03;
 
 fn n_cases(tier: Tier) -> u64 {
     match tier {
-        Tier::Quick => 200_000,
+        Tier::Quick => 350_000,
         Tier::Thorough => 5_000_000,
     }
 }
